@@ -308,6 +308,9 @@ def only_additions(before, after):
     """True if `after` is `before` plus new nodes (containers only gained children / members)."""
     fb, fa = ed.flat(before), ed.flat(after)
     new = [a for a in fa if a not in fb]
+    # members of a set have no address of their own: a set that gained members (the old ones kept, checked below) is an
+    # addition too (`[.>0].l` over `[!!set {x}, [[]], {l: …}]`: the set matches the search, lacks `l`, and gets it)
+    new += [a for a, was in fb.items() if was[0] == "set" and a in fa and fa[a][0] == "set" and len(fa[a][2]) > len(was[2])]
     if not new:
         return False
     for a, was in fb.items():
